@@ -7,6 +7,7 @@ CONSTANTS
   Chunked = FALSE
   NoRangeLen = 4
   CodeDen <- Den1
+  Dims = 1
 VIEW View
 INVARIANTS TypeOK PartsOK Partition Complete EncodeOK PolyOK
 PROPERTIES JoinTotals Progress
